@@ -231,3 +231,13 @@ gproof! { #[kani::unwind(7)] fn c15_unique_uninit_slice_with_header_prefix_len5(
         assert!(vrt::drops() == 1 && vrt::dropped(hid) && vrt::drops_kind(0) == 0 && vrt::gd(1) && vrt::glive(0));
     }
 } }
+
+// @h props=C15,C06 bounded=len<=2 fuc=UniqueArc::from_header_and_uninit_slice,UniqueArc::drop note="zero-sized header WITH a destructor: moved into the allocation, destroyed exactly once (with the handle, not at construction)"
+gproof! { #[kani::unwind(4)] fn c15_unique_uninit_slice_zst_header_with_drop() {
+    let len: usize = kani::any();
+    kani::assume(len <= 2);
+    let u: UniqueArc<HeaderSlice<Zd, [MaybeUninit<Tr>]>> = UniqueArc::from_header_and_uninit_slice(Zd, len);
+    assert!(unsafe { vrt::ZDROPS } == 0 && u.slice.len() == len);
+    drop(u);
+    assert!(unsafe { vrt::ZDROPS } == 1 && vrt::drops() == 0 && vrt::gd(1) && vrt::glive(0));
+} }
